@@ -379,8 +379,17 @@ def main_run(prop_name, tier, seed, nproc=16, replay=None):
     else:
         import multiprocessing as mp
         ctxm = mp.get_context("fork")
+        # wall-clock guard against a hang inside the library (e.g. a scan loop that no longer terminates): a budget hit is
+        # "inconclusive" (exit 2), never reported as a violation
+        budget = float(os.environ.get("VERIF_TIMEOUT_S", "3600" if tier == "quick" else "43200"))
         with ctxm.Pool(min(nproc, len(jobs))) as pool:
-            results = pool.map(_worker, jobs, chunksize=max(1, len(jobs) // (nproc * 4)))
+            ar = pool.map_async(_worker, jobs, chunksize=max(1, len(jobs) // (nproc * 4)))
+            try:
+                results = ar.get(timeout=budget)
+            except mp.TimeoutError:
+                pool.terminate()
+                sys.stderr.write("HARNESS-ERROR property=%s\ninconclusive: generated part exceeded the %.0f s wall-clock budget (VERIF_TIMEOUT_S)\n" % (prop.ID, budget))
+                return 2
     for status, d in results:
         if status != "ok":
             sys.stderr.write("HARNESS-ERROR property=%s\n%s\n" % (prop.ID, d))
